@@ -1171,6 +1171,95 @@ func c05ExtendPost(c *Ctx) {
 					}
 				}
 			}
+			// … and, unless the store is known empty on the path, the new window also keeps the OLD one: the bound
+			// handed on is min(requested, current) / max(requested, current) — as a call of a min/max function of
+			// both, or as one of the two under the comparison that makes it the smaller / larger one
+			{
+				empty := false
+				for _, cd := range p.Conds {
+					t := cd.Term
+					if isMethodCall(t, "IsEmpty") && cd.Taken {
+						empty = true
+					}
+					if (t.isBin("==") || t.isBin("!=")) && cd.Taken == t.isBin("==") && (t.Args[0].isConst("0") && stripVers(t.Args[1]).Op == "field" || t.Args[1].isConst("0") && stripVers(t.Args[0]).Op == "field") {
+						empty = true // count == 0 (the inlined IsEmpty)
+					}
+				}
+				union := func(v *Term, param int, fld string, lower bool) bool {
+					v = stripVers(stripConv(v))
+					isP := func(x *Term) bool { return stripVers(x).isParam(param) }
+					isF := func(x *Term) bool {
+						x = stripVers(x)
+						if x.Op != "field" || x.Sym != fld {
+							return false
+						}
+						o := x.Args[0]
+						return o.isParam(0) || o.Op == "field" && len(o.Args) == 1 && o.Args[0].isParam(0) // the embedded dense part
+					}
+					if (v.Op == "call" || v.Op == "builtin") && len(v.Args) == 2 {
+						nm := v.Sym
+						if i := strings.LastIndex(nm, "."); i >= 0 {
+							nm = nm[i+1:]
+						}
+						nm = strings.ToLower(nm)
+						if (lower && nm == "min" || !lower && nm == "max") && (isP(v.Args[0]) && isF(v.Args[1]) || isP(v.Args[1]) && isF(v.Args[0])) {
+							return true
+						}
+						return false
+					}
+					// one of the two, under evidence
+					for _, cd := range p.Conds {
+						t := cd.Term
+						if !(t.isBin("<") || t.isBin("<=")) {
+							continue
+						}
+						x, y := t.Args[0], t.Args[1]
+						var pBelowF, fBelowP bool // "param below field" holds / "field below param" holds
+						switch {
+						case isP(x) && isF(y):
+							pBelowF, fBelowP = cd.Taken, !cd.Taken
+						case isF(x) && isP(y):
+							fBelowP, pBelowF = cd.Taken, !cd.Taken
+						default:
+							continue
+						}
+						if isP(v) && (lower && pBelowF || !lower && fBelowP) || isF(v) && (lower && fBelowP || !lower && pBelowF) {
+							return true
+						}
+					}
+					return false
+				}
+				if !empty {
+					var lo, hi *Term
+					for _, e := range p.Effects {
+						if e.Kind == "call" && (isMethodCall(e.Call, "adjust") || isMethodCall(e.Call, "centerCounts")) && len(e.Call.Args) == 3 {
+							lo, hi = e.Call.Args[1], e.Call.Args[2]
+						}
+					}
+					if lo == nil {
+						for _, e := range p.Effects {
+							if e.Kind == "store" && e.Addr.unver().Op == "field" {
+								switch e.Addr.unver().Sym {
+								case dr.minIndex:
+									lo = e.Val
+								case dr.maxIndex:
+									hi = e.Val
+								}
+							}
+						}
+					}
+					okU := true
+					why := ""
+					if lo != nil && !union(lo, 1, dr.minIndex, true) {
+						okU, why = false, "lower bound "+shorten(lo.Key(), 90)
+					}
+					if hi != nil && !union(hi, 2, dr.maxIndex, false) {
+						okU, why = false, firstNonEmpty(why, "upper bound "+shorten(hi.Key(), 90))
+					}
+					c.R.check(okU, rule, fmt.Sprintf("%s.extendRange/path%d[%s]/window-keeps-the-old-one", tname, i, pathSig(p)), shortFn(f), c.fpos(f),
+						"on a non-empty store the new bounds are min(requested, current) and max(requested, current)", firstNonEmpty(why, "ok"))
+				}
+			}
 			c.R.check(viaAdjust || minS && maxS, rule, fmt.Sprintf("%s.extendRange/path%d[%s]/window-for-requested-range", tname, i, pathSig(p)), shortFn(f), c.fpos(f),
 				"the path hands the requested (newMin, newMax) to adjust/centerCounts or stores bounds derived from them: no return leaves the requested range outside the window",
 				fmt.Sprintf("adjust with the requested range=%v, stores minIndex=%v maxIndex=%v; [%s]", viaAdjust, minS, maxS, p.String()))
